@@ -11,6 +11,7 @@ import (
 	"fmt"
 	"go/ast"
 	"go/types"
+	"strings"
 )
 
 func init() {
@@ -71,4 +72,61 @@ func ruleC16Registry(p *Prog, r *Res) {
 		})
 	}
 	r.Floor(rule, 1, n)
+}
+
+// ---- C16-h: a converter process whose output was not read to the end is never reused ----
+
+func init() {
+	register("C16",
+		"C16-h (sibling agreement inside Converter.Data): the protocol with a converter process is line-based and stateful; once a request has been written, a process may go back into the pool only after its whole answer was consumed. Every failing return of the closures in Converter.Data that is reached after the process was obtained is preceded, in its block, by releaseProcess(process, <negative constant>) — the 'discard this process' form used by all its siblings; releasing it with the live epoch after an error leaves unread lines in the pipe, and the next stream converted by that process gets them as its own output, which is then cached.",
+		func(p *Prog, r *Res) {
+			const rule = "C16-h failed-process-discarded"
+			r.Rule(rule + ": error paths of Converter.Data release the process as failed")
+			rel := p.Method("converters", "Converter", "releaseProcess")
+			outer := p.Fn("converters.Converter.Data")
+			if rel == nil || outer == nil {
+				p.anchorFail("converters.Converter.releaseProcess / Data")
+				return
+			}
+			n := 0
+			fns := append([]*Fn{outer}, outer.Lits...)
+			for _, f := range fns {
+				info := f.Pkg.TypesInfo
+				inspectShallow(f.Body(), func(x ast.Node) bool {
+					blk, ok := x.(*ast.BlockStmt)
+					if !ok {
+						return true
+					}
+					for i, st := range blk.List {
+						ret, ok := st.(*ast.ReturnStmt)
+						if !ok || !isErrReturn(info, ret) {
+							continue
+						}
+						// the release that belongs to this return: a call of releaseProcess among the preceding statements of the block
+						var call *ast.CallExpr
+						for _, prev := range blk.List[:i] {
+							for _, c := range callsIn(prev) {
+								if p.Callee(f.Pkg, c) == rel {
+									call = c
+								}
+							}
+						}
+						if call == nil {
+							continue // error before a process was obtained, or release handled by the caller of this closure
+						}
+						n++
+						key := fmt.Sprintf("%s failing return (line +%d) discards the process", f.Key(), lineOf(p.Fset, ret)-lineOf(p.Fset, outer.Node()))
+						neg := false
+						if len(call.Args) == 2 {
+							if tv, ok := info.Types[call.Args[1]]; ok && tv.Value != nil && strings.HasPrefix(tv.Value.ExactString(), "-") {
+								neg = true
+							}
+						}
+						r.Check(neg, rule, key, p.Pos(call), "releaseProcess(process, -1)", "after this error the process is put back into the pool as healthy ("+types.ExprString(call)+") although the rest of its answer has not been read: the next stream handled by it receives the leftover lines as its own converter output")
+					}
+					return true
+				})
+			}
+			r.Floor(rule, 6, n)
+		})
 }
